@@ -21,8 +21,16 @@ RULE = ('(a) primitive cases: sample sequence (unsorted, duplicate times with di
         'regex / fnmatch metacharacter, 0-3 stars, 1-4 entries in every dict order + kwargs: SensorCache._get_props '
         'against model, Coq precedence spec and a split-based statement of the documented whole-name rule; (e) the same '
         'name/key families driven through SensorCache.get on 1-3 sensors whose names extend / are extended by each '
-        'other. A case is non-trivial when at '
-        'least one numeric extraction with >= 2 usable samples (or a dummy fill) is compared; distinct by canonical JSON')
+        'other; (f) built-in virtual sensors: the VIRTUAL_SENSORS registry of each format module (v1-v4) on a SensorCache '
+        '/ ConcatenatedSensorCache of 1-3 parts whose dump grids are irregular (dropped dumps, late dumps, declared dump '
+        'period != spacing, capture restarts, gaps between parts; 1-8 dumps per part on a 1/4 s grid over 20 days), 1-2 '
+        'antennas pointing within 2 deg of radec / azel / Sun targets (some dumps over the top, el > 90 deg), target '
+        'changes, histories of get / cache[name] / _set_keep over mjd, lst, az, el, ra, dec, parangle, target_x/y (5 '
+        'projections x azel/radec), u, v, w: every returned value against the per-dump documented function (one scalar '
+        'katpoint call per dump) placed by the Coq model; (g) the public properties d.mjd ... d.w of HDF5 v3 data sets '
+        '(single and concatenated) with irregular recorded timestamps under dump selections. A case is non-trivial when at '
+        'least one numeric extraction with >= 2 usable samples (or a dummy fill, or a non-empty virtual sensor) is compared; '
+        'distinct by canonical JSON')
 ASSUMPTIONS = ['float64 exactness domain: times on a 1/4 s grid (epoch 0 or 1.5e9), node gaps <= 24 grid steps, values '
                'integer multiples of lcm(1..24) below 2^44 so that np.interp is exact and equality is compared',
                'categorical conversion itself is C10: only the decision categorical/numeric and the dummy value are compared',
@@ -30,6 +38,15 @@ ASSUMPTIONS = ['float64 exactness domain: times on a 1/4 s grid (epoch 0 or 1.5e
                'the katpoint coordinate functions are not verified',
                'keep is a boolean mask of the length of the timestamps (what DataSet passes)',
                'parts of a concatenated cache are built with equal property maps (independent dict objects)',
+               'built-in virtual sensors: floats are compared with the documented per-dump value within an absolute tolerance '
+               '(1e-9 days for mjd, also against the exact t/86400+40587 of the model; 1e-9 rad for lst/az/el/ra/dec/parangle '
+               'and projected coordinates; 1e-6 m for u/v/w; 1e-7 deg / 1e-8 h for the DataSet properties) - the smallest '
+               'error a wrong dump can make on the generated grids is a quarter second (2.9e-6 days, 1.8e-5 rad of LST); '
+               'katpoint/ephem themselves are trusted (the expected values come from scalar katpoint calls)',
+               'np.row_stack (removed in NumPy 2, still called by katpoint 0.10.2 Target.uvw_basis) is aliased to np.vstack '
+               'while the built-in virtual sensors run, otherwise u/v/w cannot be evaluated at all and are skipped',
+               'the v4-only virtual sensors Correlator/Inputs/{inp}/applied_delay|applied_phase|applied_gain produce sensor '
+               'getters / categorical data that go through the ordinary extraction path and are not exercised',
                'sensor names are non-empty printable ASCII without "*" and without a newline (a name containing "*" is '
                'its own wildcard key; "$" also matches before a trailing newline)']
 
@@ -1146,9 +1163,9 @@ def run_builtin(ctx, case):
     return nontrivial
 
 
-def gen_vgrid(rng, start):
+def gen_vgrid(rng, start, p=None):
     """an (irregular) dump grid in quarter seconds and the declared dump period"""
-    p = rng.choice([1, 2, 4, 8, 8, 16, 32])
+    p = p or rng.choice([1, 2, 4, 8, 8, 16, 32])
     n = rng.choice([1, 2, 3, 4, 5, 6, 7, 8])
     mode = rng.choice(['regular', 'gap', 'gap', 'late', 'gap+late', 'mismatch', 'restart'])
     pos = [start]
@@ -1241,6 +1258,160 @@ WITNESS_F4 = dict(kind='builtin', fmt='v4', epoch=1500000000, ants=['m000'], pro
                   ops=[['get', 'Antennas/m000/az', False], ['get', 'Antennas/m000/el', False],
                        ['get', 'Antennas/m000/target_x_ARC_azel', False], ['get', 'Antennas/m000/az', False],
                        ['item', 'Antennas/m000/el'], ['get', 'Antennas/m000/target_y_ARC_azel', False]])
+
+
+# ---------------------------------------------------------------------------------------------- public DataSet properties
+# The same statement at the user-facing end: d.mjd, d.lst, d.az, d.el, d.ra, d.dec, d.parangle, d.target_x, d.target_y,
+# d.u, d.v, d.w of an HDF5 v3 data set (and of a concatenation of two) whose recorded dump timestamps are IRREGULAR,
+# under a dump selection: row j must be the documented function of the j-th SELECTED dump (d.timestamps[j]) alone.
+DS_ANT = '%s, -30:42:39.8, 21:26:38.0, 1086.6, 13.5, %d 0 0'          # what fixtures/mkv3.py writes
+DS_TOL = dict(mjd=1e-9, lst=1e-8, az=1e-7, el=1e-7, ra=1e-7, dec=1e-7, parangle=1e-7, target_x=1e-7, target_y=1e-7,
+              u=1e-6, v=1e-6, w=1e-6)
+DS_PROPS = ['mjd', 'lst', 'az', 'el', 'ra', 'dec', 'parangle', 'target_x', 'target_y', 'u', 'v', 'w']
+
+
+def ds_open(case, tmp):
+    import h5py
+    import katdal
+    from fixtures.mkv3 import mkv3
+    fns = []
+    for n, part in enumerate(case['parts']):
+        fn = os.path.join(tmp, '%d.h5' % (part['t0'] + n))
+        dt = part['dtq'] / 4.0
+        mkv3(fn, T=len(part['grid']), F=2, ants=tuple(case['ants']), t0=float(part['t0']), dt=dt,
+             acts=[(0, 'track')], targets=[(d, V_TARGETS[t]) for (d, t) in part['targets']], labels=[(0, 'track')],
+             seed=n)
+        with h5py.File(fn, 'r+') as f:      # the recorded dump timestamps: start of each dump, irregular
+            f['Data/timestamps'][:] = np.array([part['t0'] + k / 4.0 for k in part['grid']])
+        fns.append(fn)
+    return katdal.open(fns if len(fns) > 1 else fns[0], centre_freq=1284e6)
+
+
+def ds_expected(case, d, ts, targets):
+    """documented value of every public property for every dump of the (unselected) data set: one scalar katpoint call
+    per dump; ts = d.timestamps, targets = the target of each dump"""
+    import math
+
+    import katpoint
+    ants = [katpoint.Antenna(DS_ANT % (a, 10 * i)) for i, a in enumerate(case['ants'])]
+    arr = katpoint.Antenna('array, -30:42:39.8, 21:26:38.0, 1086.6, 13.5')
+    proj, csys = case['proj']
+    # the source sensors of the fixture: two samples (t0, 10 deg / 30 deg) and (t0 + dt T, 20 deg / 40 deg) per part
+    bounds = np.cumsum([0] + [len(p['grid']) for p in case['parts']])
+    deg = math.degrees
+    rows = {k: [] for k in DS_PROPS}
+    for i, t in enumerate(ts):
+        part = case['parts'][int(np.searchsorted(bounds, i, side='right')) - 1]
+        span = part['dtq'] / 4.0 * len(part['grid'])
+        lam = min(max((t - part['t0']) / span, 0.0), 1.0)
+        azr, elr = math.radians(10.0 + 10.0 * lam), math.radians(30.0 + 10.0 * lam)
+        point = katpoint.construct_azel_target(azr, elr)
+        rows['mjd'].append(katpoint.Timestamp(t).to_mjd())
+        rows['lst'].append(float(ants[0].local_sidereal_time(t)) * 12.0 / math.pi)
+        rows['az'].append([deg(azr)] * len(ants))
+        rows['el'].append([deg(elr)] * len(ants))
+        radec = [point.radec(t, a) for a in ants]
+        rows['ra'].append([deg(r[0]) for r in radec])
+        rows['dec'].append([deg(r[1]) for r in radec])
+        rows['parangle'].append([deg(point.parallactic_angle(t, a)) for a in ants])
+        xy = [targets[i].sphere_to_plane(*((azr, elr) if csys == 'azel' else (float(r[0]), float(r[1]))), t, a, proj, csys)
+              for a, r in zip(ants, radec)]
+        rows['target_x'].append([deg(p[0]) for p in xy])
+        rows['target_y'].append([deg(p[1]) for p in xy])
+        uvw = {a.name: targets[i].uvw(a, t, arr) for a in ants}
+        for n, c in enumerate('uvw'):
+            rows[c].append([float(uvw[ia[:-1]][n] - uvw[ib[:-1]][n]) for ia, ib in d.corr_products])
+    return {k: np.array(v, dtype=float) for k, v in rows.items()}
+
+
+def run_dataset(ctx, case):
+    import shutil
+
+    from fixtures.v4 import scratch_dir
+    tmp = scratch_dir('c12ds')
+    nontrivial = False
+    try:
+        with row_stack_shim():
+            d = ds_open(case, tmp)
+            d.select()
+            ts = np.array(d.timestamps)
+            total = sum(len(p['grid']) for p in case['parts'])
+            if len(ts) != total:
+                ctx.count('skipped:dataset-dropped-dumps')
+                return False
+            tsens = d.sensor.get('Observation/target')
+            targets = [tsens[i] for i in range(total)]
+            exp = ds_expected(case, d, ts, targets)
+            d.target_projection, d.target_coordsys = case['proj']
+            gcls = v_grid_class(dict(parts=[dict(grid=p['grid'], period=p['dtq']) for p in case['parts']]))
+            for step, (mask, order) in enumerate(case['reads']):
+                mask = np.array(mask, dtype=bool)
+                d.select(dumps=mask)
+                if not np.array_equal(d.timestamps, ts[mask]):
+                    ctx.disagree('kind=dataset;prop=timestamps;grid=%s;symptom=values_differ' % gcls, dict(case, failing_read=step),
+                                 d.timestamps.tolist(), ts[mask].tolist(), 'selected timestamps are not the selected dumps')
+                    return nontrivial
+                for prop in order:
+                    try:
+                        got = np.asarray(getattr(d, prop), dtype=float)
+                    except Exception as exc:
+                        if prop in 'uvw' and isinstance(exc, AttributeError):
+                            ctx.count('skipped:katpoint-uvw')
+                            continue
+                        ctx.disagree('kind=dataset;prop=%s;grid=%s;symptom=raises' % (prop, gcls),
+                                     dict(case, failing_read=step, failing_prop=prop), repr(exc), None, 'd.%s raised' % prop)
+                        return nontrivial
+                    want = exp[prop][mask]
+                    if got.shape != want.shape or not np.all(np.abs(got - want) <= DS_TOL[prop]):
+                        ctx.disagree('kind=dataset;prop=%s;grid=%s;symptom=%s' % (
+                                     prop, gcls, 'shape_differs' if got.shape != want.shape else 'values_differ'),
+                                     dict(case, failing_read=step, failing_prop=prop), got.tolist(), want.tolist(),
+                                     'd.%s under a dump selection is not the documented function of each selected dump '
+                                     '(d.timestamps[j] and the source sensors at that dump; tolerance %g)' % (prop, DS_TOL[prop]))
+                        return nontrivial
+                    ctx.count('dataset_prop=' + prop)
+                    nontrivial = nontrivial or bool(mask.any())
+            ctx.count('dataset_grid=' + gcls)
+            ctx.traces_validated += 1
+    finally:
+        shutil.rmtree(tmp, ignore_errors=True)
+    return nontrivial
+
+
+def gen_dataset(rng):
+    ants = ['m000', 'm001'] if rng.random() < 0.8 else ['m000', 'm001', 'm002']
+    case = dict(kind='dataset', ants=ants, proj=[rng.choice(['ARC', 'ARC', 'STG']), rng.choice(['azel', 'radec'])], parts=[])
+    t0 = rng.choice([1500000000, 1400000000]) + rng.randint(0, 86400 * 20)
+    dtq = rng.choice([2, 4, 8, 8, 16, 32])                   # spacing of the dumps (quarter seconds)
+    declared = dtq if rng.random() < 0.85 else rng.choice([q for q in (2, 4, 8, 16) if q != dtq])     # int_time of the file
+    for _ in range(rng.choice([1, 1, 2])):
+        grid, _ = gen_vgrid(rng, 0, p=dtq)
+        if len(grid) < 2:
+            grid.append(grid[-1] + dtq * rng.randint(1, 4))
+        while len(grid) > 1 and grid[-1] - grid[-2] != dtq and rng.random() < 0.5:
+            grid.append(grid[-1] + dtq)
+        ndump = len(grid)
+        tstarts = sorted(rng.sample(range(1, max(2, grid[-1] // dtq)), rng.choice([0, 1, 2]))) if grid[-1] // dtq > 2 else []
+        part = dict(t0=t0, dtq=declared, grid=grid,
+                    targets=[[0, rng.choice([0, 3, 5])]] + [[s, rng.choice([0, 2, 3, 4, 5])] for s in tstarts])
+        case['parts'].append(part)
+        t0 += grid[-1] // 4 + rng.randint(60, 4000)
+    total = sum(len(p['grid']) for p in case['parts'])
+    reads = []
+    for _ in range(rng.choice([1, 2])):
+        mask = [rng.random() < 0.6 for _ in range(total)]
+        order = rng.sample(DS_PROPS, rng.randint(3, len(DS_PROPS)))
+        reads.append([mask, order])
+    case['reads'] = reads
+    return case
+
+
+def scripted_dataset():
+    idx = list(range(0, 7)) + list(range(12, 18)) + list(range(20, 27))
+    grid = [8 * i for i in idx]
+    return [dict(kind='dataset', ants=['m000', 'm001'], proj=['ARC', 'azel'],
+                 parts=[dict(t0=1500000000, dtq=8, grid=grid, targets=[[0, 0], [9, 3]])],
+                 reads=[[[i % 4 != 0 for i in range(len(grid))], list(DS_PROPS)], [[True] * len(grid), ['mjd', 'lst', 'az']]])]
 
 
 # ---------------------------------------------------------------------------------------------- generators
@@ -1470,6 +1641,8 @@ def run_case(ctx, case):
         return run_unpack(ctx, case)
     if case.get('kind') == 'builtin':
         return run_builtin(ctx, json.loads(json.dumps(case, default=str)))
+    if case.get('kind') == 'dataset':
+        return run_dataset(ctx, json.loads(json.dumps(case, default=str)))
     if case.get('kind') == 'props':
         c = json.loads(json.dumps(case, default=str))
         return run_props(ctx, [dict(name=c['name'], pm=[tuple(e) for e in c['pm']], kw=c['kw'])])
@@ -1530,12 +1703,17 @@ def run(ctx):
         ctx.note_case(('wild', json.dumps([c, ops], sort_keys=True, default=str)), nontrivial=nt,
                       sample=dict(kind='wild', names=[n for (n, _) in c['raw']], keys=[k for (k, _) in c['props']]))
         ctx.count('wild')
-    for case in scripted_builtin() + [gen_builtin(rng) for _ in range(ctx.scale(160, 3200))]:
+    for case in scripted_builtin() + [gen_builtin(rng) for _ in range(ctx.scale(400, 8000))]:
         nt = run_builtin(ctx, case)
         ctx.note_case(('builtin', json.dumps(case, sort_keys=True, default=str)), nontrivial=nt,
                       sample=dict(kind='builtin', fmt=case['fmt'], grid=v_grid_class(case),
                                   parts=[p['grid'] for p in case['parts']], ops=[o[:2] for o in case['ops']][:4]))
         ctx.count('builtin')
+    for case in scripted_dataset() + [gen_dataset(rng) for _ in range(ctx.scale(120, 2400))]:
+        nt = run_dataset(ctx, case)
+        ctx.note_case(('dataset', json.dumps(case, sort_keys=True, default=str)), nontrivial=nt,
+                      sample=dict(kind='dataset', parts=[p['grid'] for p in case['parts']], proj=case['proj']))
+        ctx.count('dataset')
     for _ in range(ctx.scale(1300, 26000)):
         c = gen_cache(rng)
         ops = gen_ops(rng, c)
